@@ -755,6 +755,72 @@ func (ck *Check) nodeField(n *Term, names ...string) *Term {
 	return t
 }
 
+// emptyMapTest: at compares len(m) with 0 and pc sits on its "not empty" side.
+func (ck *Check) emptyMapTest(at *Term, m *Term, pc *Formula) bool {
+	if at.Kind != "cmp" || len(at.Args) != 2 {
+		return false
+	}
+	var zero, ln bool
+	for _, x := range at.Args {
+		if x.Kind == "const" && x.Name == "0" {
+			zero = true
+		}
+		if x.Kind == "len" && len(x.Args) == 1 && x.Args[0].Key() == m.Key() {
+			ln = true
+		}
+	}
+	if !zero || !ln {
+		return false
+	}
+	switch at.Name {
+	case "==":
+		imp, _, _ := Entails(pc, Not(Atom(at)))
+		return imp
+	case "<":
+		// 0 < len(m)
+		if at.Args[0].Kind == "const" {
+			imp, _, _ := Entails(pc, Atom(at))
+			return imp
+		}
+	}
+	return false
+}
+
+// inlineGetOrCreate: v merges the hit of a comma-ok lookup m[k] with a value that the miss branch
+// stores under m[k] before the merge — v is m[k] either way.
+func inlineGetOrCreate(v ssa.Value) (m, k ssa.Value, ok bool) {
+	phi, isPhi := v.(*ssa.Phi)
+	if !isPhi || len(phi.Edges) != 2 {
+		return nil, nil, false
+	}
+	var lk *ssa.Lookup
+	created := -1
+	for i, e := range phi.Edges {
+		if ex, ok := e.(*ssa.Extract); ok && ex.Index == 0 {
+			if l, ok := ex.Tuple.(*ssa.Lookup); ok && l.CommaOk {
+				lk = l
+				continue
+			}
+		}
+		created = i
+	}
+	if lk == nil || created < 0 {
+		return nil, nil, false
+	}
+	pred := phi.Block().Preds[created]
+	for _, in := range pred.Instrs {
+		if mu, ok := in.(*ssa.MapUpdate); ok && mu.Map == lk.X && mu.Key == lk.Index && mu.Value == phi.Edges[created] {
+			// the creating branch is the lookup's miss branch
+			if iff, ok := lk.Block().Instrs[len(lk.Block().Instrs)-1].(*ssa.If); ok {
+				if ex, ok := iff.Cond.(*ssa.Extract); ok && ex.Tuple == ssa.Value(lk) && ex.Index == 1 && lk.Block().Succs[1] == pred {
+					return lk.X, lk.Index, true
+				}
+			}
+		}
+	}
+	return nil, nil, false
+}
+
 // scaleOptsBinding: every scaleOpts value built in the scan body binds untainted/tainted/force
 // lists to results 0/1/2 of the classifier call, `nodes` to the listed nodes and nodeGroup to
 // the scan's group parameter.
@@ -1001,6 +1067,12 @@ func (ck *Check) emptinessShape(rule string) {
 								if mi, ki, ok := getOrCreateHelper(h); ok && ki < len(rc.Common().Args) && (mi < len(rc.Common().Args) || mi == 1000) {
 									keyOK = ctx.Term(rc.Common().Args[ki]).Key() == ck.podField(argT, "Spec", "NodeName").Key()
 								}
+							}
+						}
+						// … or got-or-created in place: e, ok := m[k]; if !ok { e = new(); m[k] = e }
+						if !keyOK {
+							if _, k, ok := inlineGetOrCreate(c.Common().Args[0]); ok {
+								keyOK = ctx.Term(k).Key() == ck.podField(argT, "Spec", "NodeName").Key()
 							}
 						}
 						if isElemOf(argT, func(t *Term) bool { return t.Kind == "param" }) && eq && keyOK {
@@ -1289,6 +1361,9 @@ func checkC10(ck *Check) {
 	// R8 protection is an annotation on the node object, and tainting is a write of that object: the
 	// taint writers change nothing but Spec.Taints of the freshly fetched node (decided as C15.R1 / R2 / R7)
 	ck.shareRules(checkC15, "C10.R8", "C15.R1", "C15.R2", "C15.R7")
+	// R9 leaving a protected node out of the list protects its machine only if the cloud terminates
+	// the instances of the nodes it is handed and no other (decided as C19.R3)
+	ck.shareRules(checkC19, "C10.R9", "C19.R3")
 }
 
 // protectedPredicate: safeFromDeletion's result 1 is true exactly on returns inside a map
@@ -1332,17 +1407,31 @@ func (ck *Check) protectedPredicate(rule string) {
 			got = Or(alts...)
 		}
 		var empty *Formula
+		axiom := FTrue
+		isLookup := func(x *Term) bool {
+			return x.Kind == "lookup" && len(x.Args) == 2 && x.Args[0].Key() == ck.nodeField(n, "ObjectMeta", "Annotations").Key() && x.Args[1].Kind == "const" && x.Args[1].Name == `"atlassian.com/no-delete"`
+		}
 		for _, at := range got.Atoms() {
 			if at.Kind == "cmp" && at.Name == "==" && hasConstStr(at, `""`) {
 				for _, x := range at.Args {
-					if x.Kind == "lookup" && len(x.Args) == 2 && x.Args[0].Key() == ck.nodeField(n, "ObjectMeta", "Annotations").Key() && x.Args[1].Kind == "const" && x.Args[1].Name == `"atlassian.com/no-delete"` {
+					if isLookup(x) {
 						empty = Atom(at)
+					}
+					// the comma-ok form `v, ok := m[k]`: a missing key reads as "" — ¬ok ⇒ v == ""
+					if isExtractOf(x, 0, isLookup) {
+						empty = Atom(at)
+						okT := &Term{Kind: "extract", Name: "1", Args: []*Term{x.Args[0]}}
+						for _, at2 := range got.Atoms() {
+							if at2.Key() == okT.Key() {
+								axiom = Or(Atom(at2), empty)
+							}
+						}
 					}
 				}
 			}
 		}
 		if empty != nil {
-			okv, why, _ := Equivalent(got, Not(empty))
+			okv, why, _ := Equivalent(And(axiom, got), And(axiom, Not(empty)))
 			ck.cond(okv, rule, "safeFromDeletion/body", ck.P.position(fn.Pos()), funcID(fn), "protected(n) ⇔ n.Annotations[\"atlassian.com/no-delete\"] ≠ \"\"", got.String(), why)
 			return
 		}
@@ -1380,6 +1469,9 @@ func (ck *Check) protectedPredicate(rule string) {
 			case at.Kind == "cmp" && at.Name == "==" && hasConstStr(at, `""`) && hasKind(at, "val"):
 				valAtom = at
 			case at.Kind == "ok":
+			case ck.emptyMapTest(at, ck.nodeField(n, "ObjectMeta", "Annotations"), pc):
+				// an early return for a node without annotations: inside the range over that map the
+				// map is not empty anyway
 			default:
 				others = append(others, at.String())
 			}
